@@ -166,8 +166,10 @@ def check_random_casing(desc, ctx):
 # ---- thermodynamic consistency ------------------------------------------------------------------------------------------
 def strat_thermo():
     tab = K.backend_table()
-    return st.builds(lambda i, u1, u2, unit: {"adsorbate": tab[i][0], "u1": min(u1, u2), "u2": max(u1, u2), "unit": unit},
-                     st.integers(0, len(tab) - 1), st.floats(0, 1), st.floats(0, 1), st.sampled_from(list(ru.PRESSURE_PA)))
+    return st.builds(lambda i, u1, u2, unit, order: {"adsorbate": tab[i][0], "u1": min(u1, u2), "u2": max(u1, u2), "unit": unit,
+                                                     "order": order},
+                     st.integers(0, len(tab) - 1), st.floats(0, 1), st.floats(0, 1), st.sampled_from(list(ru.PRESSURE_PA)),
+                     st.permutations(list(range(7))).map(list))
 
 
 def check_thermo(desc, ctx):
@@ -180,6 +182,39 @@ def check_thermo(desc, ctx):
     M = ads.molar_mass()
     if not close(M, ru.molar_mass(fluid), 1e-9):
         raise Violation(f"{ads.name}: molar_mass {M} != PropsSI {ru.molar_mass(fluid)}", tag="molar_mass")
+    # every property call in a hypothesis-drawn order at the two temperatures, each against the independent PropsSI value:
+    # the calls share one mutable CoolProp state, a value must not depend on which call came before
+    from CoolProp.CoolProp import PropsSI as _P
+    calls = [
+        ("liquid_density", lambda T: ads.liquid_density(T), lambda T: ru.rho_liq_molar(fluid, T) * ru.molar_mass(fluid)),
+        ("liquid_molar_density", lambda T: ads.liquid_molar_density(T), lambda T: ru.rho_liq_molar(fluid, T)),
+        ("gas_density", lambda T: ads.gas_density(T), lambda T: ru.rho_vap_molar(fluid, T) * ru.molar_mass(fluid)),
+        ("gas_molar_density", lambda T: ads.gas_molar_density(T), lambda T: ru.rho_vap_molar(fluid, T)),
+        ("saturation_pressure", lambda T: ads.saturation_pressure(T), lambda T: ru.p_sat(fluid, T)),
+        ("enthalpy_vaporisation", lambda T: ads.enthalpy_vaporisation(temp=T),
+         lambda T: (_P("Hmolar", "T", T, "Q", 1, fluid) - _P("Hmolar", "T", T, "Q", 0, fluid)) / 1000),
+        # surface tension is not part of the property (and not available for every fluid): it only perturbs the state
+        ("surface_tension", lambda T: _st(T), None),
+    ]
+
+    def _st(T):
+        try:
+            return ads.surface_tension(T)
+        except CalculationError:
+            return None
+
+    seq = [(calls[j], T) for T in (T1, T1, T2) for j in desc.get("order", list(range(7)))]
+    prev = None
+    for (name, lib, ref), T in seq:
+        got = lib(T)
+        if ref is None:
+            prev = f"{name}({T})"
+            continue
+        want = ref(T)
+        if not close(got, want, 1e-8):
+            raise Violation(f"{ads.name}: {name}({T}) = {got} != PropsSI {want} (previous call on the shared state: {prev})",
+                            tag=f"call_order:{name}")
+        prev = f"{name}({T})"
     psats = []
     for T in (T1, T2):
         # interleave calls at the other temperature so a stale shared state would show
